@@ -53,6 +53,9 @@ pub fn grid() -> Vec<Point> {
     add("seed", "a32049da0ffde0ded92ce10a0230d35fe615ec8461c14986baa63fe3b3bac3db00", false);
     add("seed", "zz2049da0ffde0ded92ce10a0230d35fe615ec8461c14986baa63fe3b3bac3db", false);
     add("seed", "", false);
+    // upper- and mixed-case hexadecimal is hexadecimal
+    add("seed_case", "A32049DA0FFDE0DED92CE10A0230D35FE615EC8461C14986BAA63FE3B3BAC3DB", true);
+    add("seed_case", "a32049DA0ffde0DED92ce10a0230d35FE615ec8461C14986baa63FE3b3bac3dB", true);
     // seeds whose hex digits read as a YAML number when written bare (as the README writes seeds):
     // the file source may refuse them (YAML hands the server a number, not a string) but must
     // never run with another value; from the environment they are ordinary seeds
@@ -132,6 +135,10 @@ fn gen(seed: u64, idx: u64, _tier: Tier) -> Plan {
         "seed" => s.seed_hex = pt.value.clone(),
         "seed_bare" => {
             s.seed_hex = pt.value.clone();
+            s.seed_written = Some(pt.value.clone());
+        }
+        "seed_case" => {
+            s.seed_hex = pt.value.to_lowercase();
             s.seed_written = Some(pt.value.clone());
         }
         "missing" => s.omit.push(pt.value.clone()),
@@ -274,7 +281,7 @@ fn check(plan: &Plan, out: &RunOut) -> CheckOut {
                         differs("reporter thread started", b.reporter_task.to_string());
                     }
                 }
-                "seed" | "seed_bare" => {
+                "seed" | "seed_bare" | "seed_case" => {
                     // the key the server runs with shows in every certificate it sends (the view
                     // verifies responses under the key of the written seed); the start-up line, where
                     // present, must name the same key
